@@ -46,6 +46,16 @@ CHECKS = {
             'Trusted: refmatch() in vf/props/c09.py. Not generated: plain callables as dict keys, two Optional keys for one '
             'key. TypeError-ness asserted only when a type rule fails with no alternative/Or/Not above it. Bounds: depth <= 3.',
             'DESIGN.md section 4 / C09'),
+    'C10': ('Hypothesis-generated combinator trees (constructor-built with defaults, operator-built with & | ~, and mixtures), '
+            'Switch case lists and Check keyword combinations vs Python and/or/not over the atoms; logging predicates '
+            'and probes observe short-circuiting and which Switch value spec ran',
+            'Generated-input search with an exact boolean reference: pass/fail, yielded value (last child of And, first '
+            'passing child of Or, target for Not), default handling, rejection class, evaluation log equality '
+            '(no later Or child / Switch case evaluated), CheckError listing every failed condition.',
+            'Trusted: refbool() and the Check reference in vf/props/c10.py. Comparisons that raise in Python must raise the '
+            'same class from glom. Validators are total predicates; reflected operands (x & M-expr) are not generated. '
+            'Bounds: tree depth <= 4, <= 3 children, <= 4 Switch cases.',
+            'DESIGN.md section 4 / C10'),
 }
 
 NOT_YET = 'check not built yet in this session (design in DESIGN.md section 4); will be claimed once its check is quiet on the unchanged tree'
